@@ -33,7 +33,9 @@ func F%s(i int) int { return i }
 var V%s = %s
 
 const C%s = %s
-`, name, k, k, k, k, k, k, k)}}
+
+type I%s interface{ M() int }
+`, name, k, k, k, k, k, k, k, k)}}
 	}
 	return []*memPkg{mk("A/y", "y", "0"), mk("a/x", "x", "2"), mk("b.io/x", "x", "3")}
 }
@@ -91,7 +93,11 @@ func c10Source(c c10Case) string {
 	b.WriteString(fmt.Sprintf("var Moved0 = %sF%s(%sV%s) + %sC%s + %sV%s\n\n", q("A/y"), k["A/y"], q("a/x"), k["a/x"], q("b.io/x"), k["b.io/x"], q("A/y"), k["A/y"]))
 	b.WriteString(fmt.Sprintf("func Moved1(a %sT%s, b *%sT%s) (r %sT%s) {\n\t_ = a.M() + b.F // fields and methods stay as they are\n\tr.F = %sF%s(a.F)\n\treturn r\n}\n\n", q("a/x"), k["a/x"], q("b.io/x"), k["b.io/x"], q("A/y"), k["A/y"], q("b.io/x"), k["b.io/x"]))
 	b.WriteString(fmt.Sprintf("type Moved2 struct {\n\tA %sT%s\n\tB map[string][]%sT%s\n\tC func(%sT%s) int\n}\n\n", q("A/y"), k["A/y"], q("a/x"), k["a/x"], q("b.io/x"), k["b.io/x"]))
-	b.WriteString(fmt.Sprintf("func Moved3() int {\n\tlv1 := %sV%s\n\t{\n\t\tlv2 := %sT%s{F: lv1}\n\t\treturn lv2.M() + LocalHelper()\n\t}\n}\n", q("a/x"), k["a/x"], q("A/y"), k["A/y"]))
+	b.WriteString(fmt.Sprintf("func Moved3() int {\n\tlv1 := %sV%s\n\t{\n\t\tlv2 := %sT%s{F: lv1}\n\t\treturn lv2.M() + LocalHelper()\n\t}\n}\n\n", q("a/x"), k["a/x"], q("A/y"), k["A/y"]))
+	// references that occur only in a type-parameter constraint, in the capacity operand of a slice
+	// expression, in a generic instantiation and in a type switch
+	b.WriteString(fmt.Sprintf("type Moved4[P %sI%s, Q any] struct {\n\tp P\n\tq []Q\n}\n\n", q("a/x"), k["a/x"]))
+	b.WriteString(fmt.Sprintf("func Moved5[P %sI%s](p P, s []int) []int {\n\tswitch any(p).(type) {\n\tcase %sT%s:\n\t\treturn nil\n\t}\n\treturn s[0:p.M():%sC%s]\n}\n", q("A/y"), k["A/y"], q("b.io/x"), k["b.io/x"], q("a/x"), k["a/x"]))
 	return b.String()
 }
 
@@ -166,8 +172,8 @@ func c10Run(cs c10Case) (sig, what string, rec obj) {
 	if err != nil {
 		return "move-decorate-fails", err.Error(), nil
 	}
-	// the declaration to move (the movable ones are the last four declarations)
-	idx := len(sf.Decls) - 4 + cs.Decl
+	// the declaration to move (the movable ones are the last six declarations)
+	idx := len(sf.Decls) - 6 + cs.Decl
 	moved := sf.Decls[idx]
 	before := declFacts(afs[0].Decls[idx], info)
 	sf.Decls = append(sf.Decls[:idx:idx], sf.Decls[idx+1:]...)
@@ -352,7 +358,7 @@ func checkC10(c *Ctx) {
 	}
 	seen := map[string]bool{}
 	for len(cases) < n {
-		cs := c10Case{SrcState: map[string]string{}, DstState: map[string]string{}, SamePkg: r.Intn(3) == 0, Hops: 1 + r.Intn(2), Decl: r.Intn(4)}
+		cs := c10Case{SrcState: map[string]string{}, DstState: map[string]string{}, SamePkg: r.Intn(3) == 0, Hops: 1 + r.Intn(2), Decl: r.Intn(6)}
 		for i, p := range c10Paths {
 			cs.SrcState[p] = srcStates[r.Intn(len(srcStates))]
 			if cs.SrcState[p] == "z1" {
